@@ -26,7 +26,7 @@ use verif_common::*;
 fn run_case(w: &mut World, input: &str) -> (String, Outcome) {
     let toks: Vec<&str> = input.split(' ').collect();
     let bad = |i: &str| (i.to_string(), Outcome::new("bad-case").trivial().tag("bad-case"));
-    if toks.len() < 2 || toks.len() > 3 {
+    if toks.len() < 2 || toks.len() > 4 {
         return bad(input);
     }
     let Some(chs) = parse_changes(toks[0]) else { return bad(input) };
@@ -39,9 +39,13 @@ fn run_case(w: &mut World, input: &str) -> (String, Outcome) {
         Ok(b) => b,
         Err(e) => return (input.to_string(), Outcome::new(format!("store-failed:{e}")).trivial()),
     };
-    let ord = format!("ord={}", b.ord.iter().map(|x| x.to_string()).collect::<Vec<_>>().join(","));
-    let canon = format!("{} {} {}", toks[0], toks[1], ord);
+    let canon = format!("{} {} {}", toks[0], toks[1], facts(&b));
     let mut o = Outcome::new("");
+    for (i, c) in chs.iter().enumerate() {
+        if c.forged == b.sig[i] {
+            o.violations.push(("harness-forgery-mismatch".into(), format!("change {i}: forged={} but valid_signatures()={}", c.forged, b.sig[i])));
+        }
+    }
     let full = eval_issue(w, &b, &tips);
     match full {
         Ok(Some(v)) => {
@@ -78,7 +82,7 @@ fn run_case(w: &mut World, input: &str) -> (String, Outcome) {
             }
             let rejected: Vec<usize> = (1..chs.len()).filter(|i| reach.contains(i) && !accepted(&chs, *i)).collect();
             for i in &rejected {
-                o.tags.push(format!("rejected-{}", chs[*i].kind));
+                o.tags.push(if chs[*i].forged { "rejected-bad-signature".to_string() } else { format!("rejected-{}", chs[*i].kind) });
                 let pos = if chs.iter().any(|c| c.parents.contains(&Some(*i))) {
                     if chs[*i].parents == vec![Some(0)] { "pos-below-root" } else { "pos-interior" }
                 } else {
@@ -164,6 +168,11 @@ fn planted(rng: &mut Rng, n: usize, pos: usize, kind: &str) -> String {
     let mut chs = gen_changes(rng, n, 0, false);
     let root_actor = chs[0].actor;
     let c = &mut chs[pos];
+    if kind == "sig" {
+        // a valid change of any kind, stored with a signature that does not verify
+        c.forged = true;
+        return format!("{} {}", show_changes(&chs), show_tips(&heads(&chs)));
+    }
     c.kind = kind.to_string();
     match kind {
         "ba" => {
@@ -201,7 +210,7 @@ fn main() {
         for _ in 0..rounds {
             for n in [2usize, 4, 6] {
                 for pos in 1..=n {
-                    for kind in KINDS_BAD {
+                    for kind in KINDS_BAD.iter().chain(["sig"].iter()) {
                         inputs.push(planted(&mut rng, n, pos, kind));
                     }
                 }
